@@ -424,7 +424,8 @@ class Hist:
         elif n.k == "str" and k < 0.7:
             self.ops.append("gs %d" % s)
         else:
-            self.ops.append(r.choice(["kind %d", "show %d", "gb %d", "gn %d 9", "gs %d"]) % s)
+            # (gn with tag double: defined for every stored number; an int tag could be an out-of-range float conversion)
+            self.ops.append(r.choice(["kind %d", "show %d", "gb %d", "gn %d 14", "gs %d"]) % s)
 
     def op_free(self, s):
         hd = self.h[s]
